@@ -1,4 +1,5 @@
 """Verification of one function against its contract; use of contracts at call sites."""
+import os
 import time
 import traceback
 import types
@@ -150,7 +151,17 @@ def apply_contract(interp, c, func, args, kwargs):
             if clause[1] == 'effect':
                 _call_pred(interp, clause[0], env2)
             continue
-        st.assume(interp.truth(_call_pred(interp, clause, env2)))
+        v = interp.truth(_call_pred(interp, clause, env2))
+        if v is False and not st.scopes and st.check() != z3.unsat:
+            # a clause that is plainly false on a feasible path: assuming it would silently drop the path
+            # (typically a clause about the callee's own `trace`: mark it (clause, 'internal'))
+            raise Unsupported('ensures[%s] of %s evaluates to False at a call site in %s: the contract cannot '
+                              'be used there (a clause about the callee\'s own trace must be marked internal)'
+                              % (name, c.qname, caller))
+        st.assume(v)
+        if os.environ.get('PYVC_TRACE_UNSAT') and st.check() == z3.unsat:
+            print('PYVC_TRACE_UNSAT: path condition unsatisfiable after assuming ensures[%s] of %s in %s'
+                  % (name, c.qname, caller), flush=True)
     return result
 
 
@@ -481,6 +492,20 @@ def _run_path(interp, reg, c, func, rep):
                           {'kind': 'raises-only', 'exception': repr(exc)})
     # vacuity guard: the path must be satisfiable, otherwise its obligations say nothing
     if st.check() == z3.unsat:
+        if os.environ.get('PYVC_TRACE_UNSAT'):
+            sv = z3.Solver()
+            sv.set('timeout', 20000)
+            ps = []
+            for i, t in enumerate(st.pc):
+                p_ = z3.Bool('pc!%d' % i)
+                sv.assert_and_track(t, p_)
+                ps.append((p_, t))
+            print('PYVC_TRACE_UNSAT: vacuous path at the end of %s (outcome %s, %d decisions); unsat core:'
+                  % (fname, key, len(st.decisions)), sv.check(), flush=True)
+            core = set(str(x) for x in sv.unsat_core())
+            for p_, t in ps:
+                if str(p_) in core:
+                    print('      ', str(t)[:400].replace('\n', ' '), flush=True)
         st.obligations[:] = [o for o in st.obligations if o[3].get('kind') in ('callee-pre', 'loop-entry')]
         raise PathAbort()
     if c.raises_only is not None and outcome[0] == 'return':
